@@ -46,6 +46,7 @@ class Item(models.Model):
     t1 = models.DateTimeField(null=True)
     d1 = models.DateField(null=True)
     k = models.IntegerField(default=0)
+    g1 = models.UUIDField(null=True)
     owner = models.ForeignKey(Owner, null=True, on_delete=models.SET_NULL, related_name="items")
     tags = models.ManyToManyField(Tag, related_name="items")
 
